@@ -700,6 +700,11 @@ def doRunWriter (s : State) (c : Cid) (n : Cid) : State :=
   { done s c with pc := upd (done s c).pc n .wacq, excl := some n, ew := 1, pw := .none, wrun := none,
                   grants := upd s.grants n (s.grants n + 1) }
 
+/-- `Run(_writers_first)` by the last paying reader -/
+def doRunFirst (s : State) (c : Cid) (n : Cid) : State :=
+  { done s c with pc := upd (done s c).pc n .wacq, excl := some n, ew := 1, pw := .none,
+                  grants := upd s.grants n (s.grants n + 1) }
+
 def doTryFail (s : State) (c : Cid) : State :=
   { done s c with fails := upd s.fails c (s.fails c + 1) }
 
@@ -809,7 +814,7 @@ inductive Step : State → Label → State → Prop where
   | rdFsub (s : State) (c : Cid) (h : s.pc c = .rUn1) : Step s (.rdFsub c) (doRdFsub s c)
   | rwFsub (s : State) (c : Cid) (h : s.pc c = .rUn2) : Step s (.rwFsub c) (doRwFsub s c)
   | runFirst (s : State) (c : Cid) (n : Cid) (h : s.pc c = .rRun) (hf : s.wfirst = some n) :
-      Step s (.runFirst c n) (doRunWriter s c n)
+      Step s (.runFirst c n) (doRunFirst s c n)
   /-- TryLockShared -/
   | trBegin (s : State) (c : Cid) (w r : Nat) (h : s.pc c = .idle) (ht : s.todo c ≠ []) (ho : curOp s c = .tryRd) :
       Step s (.trLoad c w r) { s with pc := upd s.pc c (.trLoop w r) }
@@ -878,7 +883,7 @@ def next (s : State) : Label → Option State
       else if s.pc c = .wcs then some { s with pc := upd s.pc c .wUn0 } else none
   | .rdFsub c => if s.pc c = .rUn1 then some (doRdFsub s c) else none
   | .rwFsub c => if s.pc c = .rUn2 then some (doRwFsub s c) else none
-  | .runFirst c n => if s.pc c = .rRun ∧ s.wfirst = some n then some (doRunWriter s c n) else none
+  | .runFirst c n => if s.pc c = .rRun ∧ s.wfirst = some n then some (doRunFirst s c n) else none
   | .trLoad c w r =>
       if s.pc c = .idle ∧ s.todo c ≠ [] ∧ curOp s c = .tryRd then some { s with pc := upd s.pc c (.trLoop w r) } else none
   | .trCas c ok =>
